@@ -1988,12 +1988,16 @@ func ruleReadLockWrites(c *Ctx, rule string) {
 						case *types.Map, *types.Slice:
 							return true
 						}
+						// any field of the object the lock belongs to (the rotation cursor next to the list)
+						if i := strings.Index(class, "."); i > 0 && strings.HasPrefix(fieldRef(fa), class[:i+1]) {
+							return true
+						}
 					}
 				}
 				return false
 			}
 			wit := reachWitness(at(rl), nil, isWrite, release)
-			c.check(wit == nil, rule, fmt.Sprintf("%s/write-under-read-lock@%s", w.fname(fn), class), w.ipos(rl), "nothing is written under the read lock", "a map or list field is written at "+w.ipos(wit)+" while only the read lock "+class+" is held: readers that iterate the same container run concurrently, and the runtime kills the process (concurrent map iteration and map write)")
+			c.check(wit == nil, rule, fmt.Sprintf("%s/write-under-read-lock@%s", w.fname(fn), class), w.ipos(rl), "nothing is written under the read lock", "a field of the locked object (a map, a list, or a word such as the rotation cursor) is written at "+w.ipos(wit)+" while only the read lock "+class+" is held: other readers run at the same time - two of them advance the same cursor, or one ranges over the map that is being written (the runtime then ends the process: concurrent map iteration and map write)")
 		}
 	}
 	if n == 0 {
